@@ -503,7 +503,7 @@ pub(crate) fn private_to_public_key<const K: usize, const L: usize>(
     sk: &PrivateKey<K, L>,
 ) -> PublicKey<K, L> {
     // Extract the pre-computes
-    let PrivateKey { rho, cap_k: _, tr, s_1_hat_mont, s_2_hat_mont, t_0_hat_mont } = sk;
+    let PrivateKey { rho, cap_k: _, tr, s_1_hat_mont, s_2_hat_mont, t_0_hat_mont: _ } = sk;
 
     let cap_a_hat: [[T; L]; K] = expand_a::<false, K, L>(rho);
 
@@ -527,19 +527,6 @@ pub(crate) fn private_to_public_key<const K: usize, const L: usize>(
         }))
     });
 
-    let t_0: [R; K] = inv_ntt(&core::array::from_fn(|k| {
-        T(core::array::from_fn(|n| mont_reduce(i64::from(t_0_hat_mont[k].0[n]))))
-    }));
-    let sk_t_0: [R; K] = core::array::from_fn(|k| {
-        R(core::array::from_fn(|n| {
-            if t_0[k].0[n] > (Q / 2) {
-                t_0[k].0[n] - Q
-            } else {
-                t_0[k].0[n]
-            }
-        }))
-    });
-
     // 5: t ← NTT−1(cap_a_hat ◦ NTT(s_1)) + s_2    ▷ Compute t = As1 + s2
     let t: [R; K] = {
         let as1_hat: [T; K] = mat_vec_mul(&cap_a_hat, &s_1_hat);
@@ -548,8 +535,9 @@ pub(crate) fn private_to_public_key<const K: usize, const L: usize>(
     };
 
     // 6: (t_1, t_0) ← Power2Round(t, d)    ▷ Compress t
-    let (t_1, pk_t_0): ([R; K], [R; K]) = power2round(&t);
-    debug_assert_eq!(sk_t_0, pk_t_0); // fuzz target
+    // Note: the t_0 held in the private key is not compared with the recomputed one; FIPS 204 does
+    // not require a private key to be self-consistent, and deserialization accepts any in-range t_0
+    let (t_1, _t_0): ([R; K], [R; K]) = power2round(&t);
 
     // 7: pk ← pkEncode(ρ, t_1)
     // 9: 𝐰Approx ← NTT (𝐀 ∘ NTT(𝐳) − NTT(𝑐) ∘ NTT(𝐭1 ⋅ 2𝑑 ))    ▷ 𝐰Approx = 𝐀𝐳 − 𝑐𝐭1 ⋅ 2𝑑
